@@ -222,6 +222,8 @@ func (o *gobs) term(op GOp) string {
 		return "Rl " + tail
 	case "D":
 		return "Dr " + tail
+	case "Z":
+		return "Hd " + tail
 	default:
 		return "Tk " + tail
 	}
@@ -390,6 +392,12 @@ func runGate(c Case) lib.Result {
 				g.release <- struct{}{}
 				q = settle()
 			}
+		case "Z":
+			// wall-clock time passes while nothing is released: a stall of any length may only delay
+			// an outstanding Flush/Close, never let it return
+			time.Sleep(time.Duration(op.N) * time.Millisecond)
+			q = settle()
+			tags["hold"] = true
 		case "T":
 			if !c.Tick {
 				return
